@@ -4,7 +4,8 @@ sentinel written at the wrong resolution shows up as an empty None class."""
 from __future__ import annotations
 from ..domains import IntSet
 from .c10 import numeric_fields, field_table, collect_inline, SENT
-from .common import flatten, unwrap_message
+from .common import flatten, unwrap_message, leaf_table
+from ..extract import Canon
 from .c04 import infer_shape
 from ..spec import itu
 
@@ -23,6 +24,7 @@ def run(ctx, chk):
     ctx.prefetch(cfgs)
     cache = {"inline": collect_inline(ctx, cfgs)}
     done = set()
+    helpers = set()
     n = 0
     for (cfg, I, C, struct, p, kind, offw, term, o) in numeric_fields(ctx, cfgs):
         sent = sentinel_of(kind)
@@ -41,6 +43,8 @@ def run(ctx, chk):
             sent_raw = sent + (1 << offw[1])      # sentinel given on the signed reading of an unsigned field
         else:
             sent_raw = sent
+        if not leaf.startswith("inline:") and "{closure" not in leaf:
+            helpers.add((cfg, leaf, sent_raw, offw[1]))
         none_set = IntSet.empty()
         some_set = IntSet.empty()
         for (sets, res, s2, rv) in rows:
@@ -55,6 +59,35 @@ def run(ctx, chk):
                sample={"field": struct + "." + p, "absent_for": repr(none_set), "sentinel": sent})
         chk.ob(some_set == rng.minus(want), "C11/%s/%s/some=%s" % (struct, p, some_set.iv[:3]),
                "%s.%s [%s]: present for %r, expected every value except the sentinel (a value panics or is dropped)" % (struct, p, cfg, some_set))
+    # the decoders are public functions of their own: over the whole argument type (not only the
+    # field's range) the absent set must still be the sentinel alone - "out-of-range raw values
+    # that are not the sentinel are passed through, never turned into absent"
+    nfull = 0
+    for (cfg, leaf, sent_raw, w) in sorted(helpers):
+        I = ctx.layouts(cfg)[0]
+        C = Canon(I.f)
+        b = I.f.bodies.get(leaf)
+        if b is None or b["arg_count"] != 1:
+            continue
+        t = I.f.types[b["locals"][1]]
+        if t["k"] != "int":
+            continue
+        full = IntSet.range(-(1 << (t["w"] - 1)), (1 << (t["w"] - 1)) - 1) if t["s"] else IntSet.range(0, (1 << t["w"]) - 1)
+        try:
+            rows = leaf_table(I, C, leaf, [full])
+        except Exception as e:
+            chk.ob(False, "C11/helper-domain/unanalysable/%s" % leaf.rsplit("::", 1)[-1], "reason=unanalysable: %s over its whole argument type [%s]: %r" % (leaf, cfg, e))
+            continue
+        none_full = IntSet.empty()
+        for (sets, res, s2, rv) in rows:
+            if res == ("none",):
+                none_full = none_full.union(sets[0])
+        nfull += 1
+        sr = sent_raw if not (t["s"] and sent_raw >= (1 << (w - 1)) and w < t["w"]) else sent_raw
+        chk.ob(none_full.minus(IntSet.of(sr)).minus(IntSet.of(sr - (1 << w))).is_empty(), "C11/helper-domain/%s/none=%s" % (leaf.rsplit("::", 1)[-1], none_full.iv[:3]),
+               "%s [%s] reports 'absent' for raw values %r; only the not-available code %d may be absent, also outside the %d-bit field" % (leaf, cfg, none_full, sent_raw, w),
+               sample={"decoder": leaf, "absent_over_whole_type": repr(none_full)})
+    chk.ob(nfull >= 5, "C11/helper-domain/floor/%d" % nfull, "only %d decoder functions evaluated over their whole argument type" % nfull)
     # inline sentinels (interrogation slot offset 0) are partitions of messages::parse itself
     for cfg in cfgs:
         I, outs = ctx.layouts(cfg)
